@@ -245,8 +245,10 @@ def conelp_cert(pr, sol, opts, truth=None, bounds=None):
         cert['pres_ok'] = le_tol(resz2, rz0) and le_tol(resy2, ry0)
         cert['dres_ok'] = le_tol(resx2, rx0)
         tolc = Fr(1, 10 ** 9) * solmag
-        cert['s_in_cone'] = in_cone(s, pr.dims, shift=tolc) and _symmetric(s, pr.dims)
-        cert['z_in_cone'] = in_cone(z, pr.dims, shift=tolc) and _symmetric(z, pr.dims)
+        cert['s_symmetric'] = _symmetric(s, pr.dims)
+        cert['z_symmetric'] = _symmetric(z, pr.dims)
+        cert['s_in_cone'] = in_cone(s, pr.dims, shift=tolc) and cert['s_symmetric']
+        cert['z_in_cone'] = in_cone(z, pr.dims, shift=tolc) and cert['z_symmetric']
         cert['s_interior'] = in_cone(s, pr.dims, strict=True)
         cert['z_interior'] = in_cone(z, pr.dims, strict=True)
         gap = sdot(s, z, w)
